@@ -13,6 +13,7 @@ import Driver.Visit
 import Driver.Serde
 import Driver.DataType
 import Driver.Query
+import Driver.Dml
 /-! Model driver: one request per line `op \t arg …`, one answer per line. -/
 namespace Driver
 
@@ -36,6 +37,7 @@ def dispatch (line : String) : String :=
   | "dtparse" :: args => DTyD.handleParse args
   | "dtprint" :: args => DTyD.handlePrint args
   | "queries" :: args => Qr.handleQueries args
+  | "dml" :: args => Dm.handleDml args
   | _ => "bad-op"
 
 partial def loop (h : IO.FS.Stream) (out : IO.FS.Stream) : IO Unit := do
